@@ -128,7 +128,7 @@ C_LIFTS = {
     "lock": Lift(CSP, r"void lock\(\)", rules=[
         # the lambda [this] { return member(); } becomes the pair (member function, object)
         Sub(r"\[this\]\s*\{\s*return\s+(\w+)\(\);\s*\}", r"&\1, self", 1),
-        Call(r"\butil::yield_while", "yield_while({args})", 1)] + SELF_CALLS, loops={1: LOOP_SPIN, "count": 1}),
+        Call(r"\butil::yield_while", "yield_while({args})", "+")] + SELF_CALLS, loops={1: LOOP_SPIN, "count": 1, "allow_missing": True}),
     "try_lock": Lift(CSP, r"bool try_lock\(\)", rules=SELF_CALLS),
     "unlock": Lift(CSP, r"void unlock\(\)", rules=SELF_CALLS),
 }
@@ -136,7 +136,7 @@ T_LIFTS = {
     "try_lock": Lift(TSP, r"bool try_lock\(\)", rules=ATOMIC),
     "lock": Lift(TSP, r"void lock\(\)", rules=[
         Call(r"(?<![\w.>:])yield_k", "vx_spinlock_yield_k(self, {0})", 1)] + SELF_CALLS,
-        loops={1: LOOP_SPIN.replace("SPIN_FRAME", "k, SPIN_FRAME"), "count": 1}),
+        loops={1: LOOP_SPIN.replace("SPIN_FRAME", "k, SPIN_FRAME"), "count": 1, "allow_missing": True}),
     "unlock": Lift(TSP, r"void unlock\(\)", rules=ATOMIC),
 }
 for (pre, tpl, lifts, src, cls) in [("spinlock", "spin_c.c", C_LIFTS, CSP, "pika::concurrency::detail::spinlock"),
